@@ -1,4 +1,162 @@
-import AY.Spec.Plain
+/-
+  AY.Props.C11 — evaluation yields plain Python data and leaves the source tree reusable.
+
+  Property text: "The object returned by a build contains no awesomeyaml node anywhere: mappings
+  become attribute-accessible dicts (cfg.a is cfg['a']), lists become lists, scalars their exact
+  Python type, and the structure mirrors the merged tree. Evaluating does not modify the merged
+  source tree that the config keeps: evaluating that source again gives an equal result, and
+  mutating the evaluated config never changes the source."
+
+  The statements are about `evalNodeF` / `evaluate` / `config` of AY.Model.Eval, `Val` of
+  AY.Model.Func and the specification-side `native` of AY.Spec.Plain. Only property theorems live
+  here; lemmas are in AY.Lemmas.PlainEvalLemmas (`Val.toPlain?`, `plainTree`, `uniqueKeys`,
+  `FreshAt`, `Frame`, `plain_evalNodeF`).
+
+  What is a theorem and what is true by construction:
+  * "contains no awesomeyaml node anywhere" holds by the *type* of the model: no constructor of
+    `Val` carries a `Node` (`Val` is defined in AY.Model.Func, which does not even import the node
+    type's operations), so there is nothing to prove in Lean; the tie to the library is the
+    correspondence check, which walks evaluated configs for node instances.
+  * "Evaluating does not modify the source" likewise: `evaluate` is a pure function of `root`; the
+    tree is not part of `EvSt`. `C11_source_reusable` records the consequence that is observable.
+  * "the structure mirrors the merged tree, scalars keep their exact value" is the theorem
+    `C11_plain_eval_is_native`.
+-/
+import AY.Lemmas.PlainEvalLemmas
 namespace AY
-theorem C11_placeholder : foldUpd [] = .error .value := rfl
+
+/-- `{a: 1, b: [x, {c: null, d: 2.5}], e: {}}` with an `!unsafe` marker and a `!append` list in it
+    (flags play no role for the data) -/
+def c11ExTree : Node :=
+  .comp {} .dict [
+    (.str "a", .leaf {} (.scalar (.int 1))),
+    (.str "b", .comp { safe := some false } .append [
+      (.int 0, .leaf {} (.scalar (.str "x"))),
+      (.int 1, .comp {} .dict [(.str "c", .leaf {} (.scalar .null)), (.str "d", .leaf { prio := some 1 } (.scalar (.float "2.5")))])]),
+    (.str "e", .comp {} .dict [])]
+
+/-! ### Structure mirrors the tree -/
+
+/- "lists become lists, scalars their exact Python type, and the structure mirrors the merged
+   tree": for a node whose subtree consists of plain containers (dict, list, !append, !extend,
+   stream) and scalar leaves (`plainTree`), with pairwise distinct keys in every container
+   (`uniqueKeys`; always true for library-built trees), evaluated with enough fuel in any state in
+   which nothing at or below its path is memoised or under evaluation (`FreshAt`), `evalNodeF`
+   *succeeds*, the result read back as plain data is exactly `native n`, and only memo entries at or
+   below the path were added (`Frame`) -/
+theorem C11_plain_evalNodeF_is_native (root : Node) (w : World) (fuel : Nat) (n : Node) (path : Path)
+    (st : EvSt) (hfuel : n.size ≤ fuel) (hpl : plainTree n = true) (huk : uniqueKeys n = true)
+    (hfresh : FreshAt path st) :
+    ∃ v st', evalNodeF root w fuel false n path st = .ok (v, st') ∧
+      v.toPlain? = some (native n) ∧ Frame path st st' :=
+  plain_evalNodeF root w fuel n path st hfuel hpl huk hfresh
+
+example : c11ExTree.size ≤ 9 ∧ plainTree c11ExTree = true ∧ uniqueKeys c11ExTree = true ∧
+    FreshAt [.str "x"] { cache := [([.str "y"], .sym "s")], inProgress := [[]] } := by
+  refine ⟨by decide, by decide, by decide, ?_⟩
+  intro q hq
+  obtain ⟨t, rfl⟩ := hq
+  simp [plookup]
+
+/- for a whole build: a plain tree evaluates successfully, to its native data -/
+theorem C11_plain_eval_is_native (w : World) (root : Node) (hpl : plainTree root = true)
+    (huk : uniqueKeys root = true) :
+    ∃ v st, evaluate w root = .ok (v, st) ∧ v.toPlain? = some (native root) := by
+  obtain ⟨v, st, h, hv, _⟩ := plain_evalNodeF root w (2 * root.size + 10) root [] {}
+    (by omega) hpl huk (by intro q _; exact ⟨rfl, by simp⟩)
+  exact ⟨v, st, h, hv⟩
+
+/- `Config(root)` for a mapping root (what `Config` is given): `check_missing` finds nothing in a
+   plain tree, an empty mapping is `{}` directly. (Model remark: `config` short-cuts every root
+   with an empty children list to `{}`, also an empty *list* root, for which `native` is `[]`; the
+   library never builds a `Config` from a list root, so the statement is for mapping roots.) -/
+theorem C11_plain_config_is_native (w : World) (f : Flags) (cs : List (Key × Node))
+    (hpl : plainTree (.comp f .dict cs) = true) (huk : uniqueKeys (.comp f .dict cs) = true) :
+    ∃ v st, config w (.comp f .dict cs) = .ok (v, st) ∧ v.toPlain? = some (native (.comp f .dict cs)) := by
+  obtain ⟨v, st, h, hv⟩ := C11_plain_eval_is_native w _ hpl huk
+  cases cs with
+  | nil => exact ⟨_, _, rfl, rfl⟩
+  | cons kc rest =>
+    refine ⟨v, st, ?_, hv⟩
+    simp only [config, requiredPaths_plain _ [] hpl]
+    exact h
+
+example : ∃ v st, config {} c11ExTree = .ok (v, st) ∧ v.toPlain? = some (native c11ExTree) :=
+  C11_plain_config_is_native {} _ _ (by decide) (by decide)
+
+example : ∃ v st, evaluate {} c11ExTree = .ok (v, st) ∧ v.toPlain? = some (native c11ExTree) :=
+  C11_plain_eval_is_native {} c11ExTree (by decide) (by decide)
+
+example : native c11ExTree = .dict [
+    (.str "a", .scalar (.int 1)),
+    (.str "b", .list [.scalar (.str "x"), .dict [(.str "c", .scalar .null), (.str "d", .scalar (.float "2.5"))]]),
+    (.str "e", .dict [])] := rfl
+
+/- the hypothesis on keys is necessary in the model: a children list with a repeated key (which a
+   Python dict cannot hold) is not mirrored — the second entry hits the memo of the first -/
+example : ∃ st, evaluate {} (.comp {} .dict [(.str "a", .leaf {} (.scalar (.int 1))), (.str "a", .leaf {} (.scalar (.int 2)))])
+    = .ok (.dict [] [(.str "a", .scalar (.int 1)), (.str "a", .scalar (.int 1))], st) := ⟨_, rfl⟩
+
+/- "mappings become … dicts, lists become lists … and the structure mirrors the merged tree" for
+   *every* tree (also with dynamic nodes inside): a mapping node that evaluates gives a dict with
+   exactly the keys of its children, in order, carrying the node's path as identity; a list-family
+   node gives a list of the same length -/
+theorem C11_container_mirrors (rec : Rec) (root : Node) (w : World) (rs : Bool) (f : Flags) (k : CompKind)
+    (cs : List (Key × Node)) (path : Path) (st st' : EvSt) (v : Val)
+    (h : evalImpl rec root w rs (.comp f k cs) path st = .ok (v, st')) :
+    (k = .dict → ∃ items, v = .dict path items ∧ items.map (·.1) = cs.map (·.1)) ∧
+    (k = .list ∨ k = .append ∨ k = .extend ∨ k = .stream →
+      ∃ items, v = .list path items ∧ items.length = cs.length) := by
+  refine ⟨?_, ?_⟩
+  · rintro rfl
+    simp only [evalImpl] at h
+    split at h
+    · cases h
+    · rename_i items st1 he
+      cases h
+      exact ⟨items, rfl, evalItems_keys cs st items _ he⟩
+  · intro hk
+    have hl : ∃ items st1, evalItems rec rs path cs st = .ok (items, st1) ∧ v = .list path (items.map (·.2)) := by
+      rcases hk with rfl | rfl | rfl | rfl <;>
+      · simp only [evalImpl] at h
+        split at h
+        · cases h
+        · rename_i items st1 he
+          cases h
+          exact ⟨items, _, he, rfl⟩
+    obtain ⟨items, st1, he, rfl⟩ := hl
+    refine ⟨_, rfl, ?_⟩
+    have := congrArg List.length (evalItems_keys cs st items st1 he)
+    simpa using this
+
+example : ∃ v st', evalImpl (evalNodeF c11ExTree {} 9) c11ExTree {} false c11ExTree [] {} = .ok (v, st') :=
+  ⟨_, _, rfl⟩
+
+/-! ### No node in the result -/
+
+/- "The object returned by a build contains no awesomeyaml node anywhere": by the type of `Val`
+   (see the header). What can be stated is the stronger fact for plain trees that the result
+   consists of scalars, dicts and lists only — `toPlain?` is defined exactly on such values -/
+theorem C11_no_node_in_result (w : World) (root : Node) (hpl : plainTree root = true)
+    (huk : uniqueKeys root = true) :
+    ∃ v st, evaluate w root = .ok (v, st) ∧ (v.toPlain?).isSome = true := by
+  obtain ⟨v, st, h, hv⟩ := C11_plain_eval_is_native w root hpl huk
+  exact ⟨v, st, h, by simp [hv]⟩
+
+example : (Val.app [] "f" [] [] []).toPlain? = none ∧ (Val.dict [] [(.str "a", .sym "s")]).toPlain? = none ∧
+    (Val.list [] [.scalar .null]).toPlain? = some (.list [.scalar .null]) := ⟨rfl, rfl, rfl⟩
+
+/-! ### The source is reusable -/
+
+/- "Evaluating does not modify the merged source tree …: evaluating that source again gives an equal
+   result": `evaluate` is a function of the tree alone and starts from the empty state, so a second
+   evaluation of the same source — after any number of other evaluations — is the same computation.
+   Trivial in the model (purity); the substance is that the model needs no "source after
+   evaluation" component to match the library. -/
+theorem C11_source_reusable (w : World) (root other : Node) :
+    (evaluate w other, evaluate w root).2 = evaluate w root ∧
+    (config w root, config w root).1 = (config w root, config w root).2 := ⟨rfl, rfl⟩
+
+example : evaluate {} c11ExTree = evaluate {} c11ExTree := rfl
+
 end AY
